@@ -8,7 +8,7 @@ from .engine import Case, Prop
 
 
 class C05(Prop):
-    """Theorems (Props/C05.lean) over the regenerated tables: every unit-name literal has the dimensions and an admissible scale of the reference table (SI brochure, yard-and-pound agreement, US customary) except the pinned deviations, the prefix table is the SI prefix table, and the word parser model only produces prefix+name segmentations; correspondence over the whole vocabulary crossed with every prefix spelling, two-name concatenations, corrupted names and random unit expressions."""
+    """Theorems (Props/C05.lean): prefix literals = SI prefixes; every unit literal outside the pinned deviations has the reference row's dimensions and an admissible exact scale; for any word an accepted parse is a concatenation of table literals read with the table's meaning; every typeable name alone is its unit; unit expressions: `*`/blank neutral, `/` inverts what follows, `^n` applies to the unit it follows (accepted UNIT node = its specification reading). Correspondence: every name x every prefix spelling, two-name concatenations, corrupted names, random and mixed-prefix unit expressions, reference-driven sweep of dimensions and scales."""
     id = "C05"
     module = "Anything.Props.C05"
     needs_tables = True
@@ -247,7 +247,7 @@ def within_bound(s):
 
 
 class C11(Prop):
-    """Theorems (Props/C11.lean): the model's explicit panic outcomes are unreachable and every error span is the span of a tree node inside the input on character boundaries; correspondence and direct oracle on token soups and raw Unicode in the debug-assertion and the release build, every value rendered the way the binary does."""
+    """Theorems (Props/C11.lean): every string parses; no result is a panic (fuel never runs out, the round assertion and the `Compound::new` zero-power assertion are unreachable for table units); every error range lies inside the input on token (character) boundaries. Correspondence and direct oracle in the debug-assertion and the release build: token soups kept inside the stated bound, every string of up to three symbols over a mixed one-/multi-byte alphabet, degree words, compounding unit powers, raw Unicode."""
     id = "C11"
     module = "Anything.Props.C11"
     release = True
